@@ -146,7 +146,10 @@ theorem static_step {env : Env} (hE : EnvP env) {fuel n : Nat} {s s' : State} {r
     obsN := hobsN
     tvar := fun c vc hk hvc => target_var ht hk hvc
     tconv := fun x hk => target_conv hE ht hk
-    lcStale := lcStale_of_stepB F I R sf hf }
+    lcStale := lcStale_of_stepB F I R sf hf
+    stamp := fun m e hk hs => by
+      have hmn : m ≠ n := fun h => hne e (h ▸ hk)
+      rw [(R.other m hmn).recomputedAt]; exact hs }
   have N' := N.of_vstep S
   have P' := A.pk.of_vstep S N'
   have F' := F.of_sf sf fr' R.shapes
@@ -234,7 +237,12 @@ theorem pop_step {env : Env} {s s1 : State} {n : Nat} (D : PD env s none) (N : N
     obsN := hobsN
     tvar := fun c vc hk _ => absurd (lt_of_kind_var hk) (Nat.lt_irrefl _)
     tconv := fun x hk => absurd (lt_of_kind_map hk) (Nat.lt_irrefl _)
-    lcStale := fun lc f c _ _ hst => ⟨by rw [← hstale]; exact hst, fun _ => hval _⟩ }
+    lcStale := fun lc f c _ _ hst => ⟨by rw [← hstale]; exact hst, fun _ => hval _⟩
+    stamp := fun m e _ hs => by
+      rw [V_nodeD] at hs ⊢
+      have e1 : vNode s1 = vNode s := by rw [hs1]; rfl
+      rw [e1, hnd]
+      split <;> exact hs }
   have N1 := N.of_vstep S
   have P1 := A.pk.of_vstep S N1
   have F1 := F.of_sf sf fr1 hsh
